@@ -11,6 +11,12 @@ use std::sync::Mutex;
 // event log
 // ---------------------------------------------------------------------------------------------
 pub static LOG: Mutex<Vec<String>> = Mutex::new(Vec::new());
+/// when set, logging is a no-op that performs no allocation (allocation counting)
+pub static QUIET: std::sync::atomic::AtomicBool = std::sync::atomic::AtomicBool::new(false);
+#[inline]
+fn quiet() -> bool {
+    QUIET.load(SeqCst)
+}
 static PRE_HOOK: AtomicPtr<()> = AtomicPtr::new(std::ptr::null_mut());
 
 /// Install a function that is called before every visible operation (used by the thread scheduler).
@@ -30,16 +36,25 @@ fn push(s: String) {
 }
 /// Log an event `site:arg`.
 pub fn ev<T: Debug + ?Sized>(site: &str, v: &T) {
+    if quiet() {
+        return;
+    }
     pre(site);
     push(format!("{}:{:?}", site, v));
 }
 /// Log an event without argument.
 pub fn ev0(site: &str) {
+    if quiet() {
+        return;
+    }
     pre(site);
     push(site.to_string());
 }
 /// Log the evaluation of a non-closure operand and return it.
 pub fn lg<T>(site: &str, v: T) -> T {
+    if quiet() {
+        return v;
+    }
     pre(site);
     push(format!("{}:operand", site));
     v
@@ -160,6 +175,9 @@ fn idt<T>(t: T) -> T {
 }
 /// A non-closure operand with a visible evaluation: logs, then returns the identity function.
 pub fn lgf<T>(site: &str) -> fn(T) -> T {
+    if quiet() {
+        return idt::<T>;
+    }
     pre(site);
     push(format!("{}:operand", site));
     idt::<T>
@@ -385,13 +403,29 @@ unsafe impl std::alloc::GlobalAlloc for CountAlloc {
         std::alloc::System.realloc(p, l, n)
     }
 }
-/// Count allocations made by `f` on this (single-threaded) run.
+/// Count allocations made by `f` on this (single-threaded) run; logging is switched off meanwhile.
 pub fn count_allocs<R>(f: impl FnOnce() -> R) -> (R, usize) {
+    QUIET.store(true, SeqCst);
     ALLOCS.store(0, SeqCst);
     ALLOC_ON.store(1, SeqCst);
     let r = f();
     ALLOC_ON.store(0, SeqCst);
+    QUIET.store(false, SeqCst);
     (r, ALLOCS.load(SeqCst))
+}
+/// step outcome over move-only tokens
+pub fn st_t(slot: usize, t: Tok) -> Tok {
+    if act(slot) == 2 {
+        panic!("injected panic at slot {}", slot);
+    }
+    t
+}
+pub fn st_tr(slot: usize, payload: i32, t: Tok) -> Result<Tok, i32> {
+    match act(slot) {
+        0 => Ok(t),
+        1 => Err(payload),
+        _ => panic!("injected panic at slot {}", slot),
+    }
 }
 
 // ---------------------------------------------------------------------------------------------
